@@ -648,6 +648,21 @@ def c10(scn, x):
                                     "signature": {"clause": "started-after-stop"}})
             if n_exec > max(mt, 1) and not stateful:
                 out.append({"what": f"{short(ident)} executed {n_exec} times with max_tries={mt}", "signature": {"clause": "over-budget"}})
+    # replay: "... unless a state it produces is missing" - a setup test with an acceptable previous result whose state is in no pool
+    # at all when the run starts has to be executed again (decided from the world, not from the code's own scan requests)
+    if replay and scn.previous and not getattr(scn, "dry", False):
+        initial = set(scn.shared) | {it for items in scn.own.values() for it in items}
+        setup_failed = any(e["k"] == "end" and e["status"] != "PASS" and any(n["sets"] for n in x.final["nodes"] if n["ident"] == e["ident"])
+                           for e in x.trace)
+        for ident in sorted(idents):
+            sets = next((n["sets"] for n in x.final["nodes"] if n["ident"] == ident and n["sets"]), [])
+            p = prev.get(ident, [])
+            if not sets or not p or all(s_ in rerun for s_ in p) or setup_failed:
+                continue
+            missing = [(t[0], t[2]) for t in sets if (t[0], t[2]) not in initial and not t[4]]
+            if missing and not by_test.get(ident):
+                out.append({"what": f"replay: {short(ident)} has previous results {p} and its state {missing} is in no pool, but it was not executed again",
+                            "signature": {"clause": "missing-state-not-rerun"}})
     # each execution reads its own result: the results stored on the nodes are the outcomes the world assigned, try by try
     for n in x.final["nodes"]:
         if n["flat"] or n["shared_root"]:
